@@ -61,49 +61,60 @@ func TestVerifC14(t *testing.T) {
 		if j.root.Response {
 			mapping, side = respMapping, "remote"
 		}
-		for _, sn := range append(setNames, "absent") {
-			msg := vrt.BuildForPath(j.root.MD, j.path, vrt.BuildOpts{Decorate: vrt.DecorateEvent, SetLeaf: func(m protoreflect.Message, leaf protoreflect.FieldDescriptor) {
-				switch sn {
-				case "absent":
-					// container left nil; keep the parent non-empty so the path exists up to here
-				case "empty-map":
-					if !leaf.IsMap() {
-						m.Mutable(leaf) // empty SearchAttributes message, nil map
+		// paths through a serialized batch are also presented with the batch JSON-encoded (Temporal's serializer reads
+		// proto3 and JSON alike)
+		encodings := []bool{false}
+		if vrt.PathBlobField(j.path) != "" {
+			encodings = append(encodings, true)
+		}
+		for _, asJSON := range encodings {
+			for _, sn := range append(setNames, "absent") {
+				msg := vrt.BuildForPath(j.root.MD, j.path, vrt.BuildOpts{Decorate: vrt.DecorateEvent, BlobJSON: asJSON, SetLeaf: func(m protoreflect.Message, leaf protoreflect.FieldDescriptor) {
+					switch sn {
+					case "absent":
+						// container left nil; keep the parent non-empty so the path exists up to here
+					case "empty-map":
+						if !leaf.IsMap() {
+							m.Mutable(leaf) // empty SearchAttributes message, nil map
+						}
+					default:
+						vrt.SetSA(m, leaf, vrt.SAKeySets[sn], side)
 					}
-				default:
-					vrt.SetSA(m, leaf, vrt.SAKeySets[sn], side)
+				}})
+				replay := map[string]any{"root": j.root.String(), "path": j.path.String(), "keys": sn, "json_encoded_blob": asJSON}
+				ref := proto.Clone(msg)
+				refMatched, err := vrt.RefTranslateSA(ref, mapping)
+				if err != nil {
+					res.Violate("harness/reference-error", err.Error(), replay)
+					continue
 				}
-			}})
-			replay := map[string]any{"root": j.root.String(), "path": j.path.String(), "keys": sn}
-			ref := proto.Clone(msg)
-			refMatched, err := vrt.RefTranslateSA(ref, mapping)
-			if err != nil {
-				res.Violate("harness/reference-error", err.Error(), replay)
-				continue
-			}
-			before := proto.Clone(msg)
-			var matched bool
-			if j.root.Response {
-				matched, err = tr.TranslateResponse(msg)
-			} else {
-				matched, err = tr.TranslateRequest(msg)
-			}
-			atomic.AddInt64(&evals, 1)
-			if refMatched {
-				atomic.AddInt64(&nontrivial, 1)
-			}
-			sig := vrt.PathSignature(j.path) + "/keys=" + sn
-			if err != nil {
-				res.Violate("sa-translator-error/"+sig, fmt.Sprintf("%s path %s keys %s: %v", j.root, j.path, sn, err), replay)
-				continue
-			}
-			eq, cerr := vrt.CanonEqual(msg, ref)
-			if cerr != nil || !eq {
-				res.Violate("sa-keys-wrong/"+sig, fmt.Sprintf("%s path %s key set %s: containers after translation %v, reference %v (before: %v) err=%v", j.root, j.path, sn, vrt.SAKeys(msg), vrt.SAKeys(ref), vrt.SAKeys(before), cerr), replay)
-				continue
-			}
-			if matched != refMatched {
-				res.Violate("sa-changed-flag/"+sig, fmt.Sprintf("%s path %s key set %s: matched=%v reference %v", j.root, j.path, sn, matched, refMatched), replay)
+				before := proto.Clone(msg)
+				var matched bool
+				if j.root.Response {
+					matched, err = tr.TranslateResponse(msg)
+				} else {
+					matched, err = tr.TranslateRequest(msg)
+				}
+				atomic.AddInt64(&evals, 1)
+				if refMatched {
+					atomic.AddInt64(&nontrivial, 1)
+				}
+				sig := vrt.PathSignature(j.path) + "/keys=" + sn
+				if asJSON {
+					sig += "/json-encoded-blob"
+				}
+				if err != nil {
+					res.Violate("sa-translator-error/"+sig, fmt.Sprintf("%s path %s keys %s: %v", j.root, j.path, sn, err), replay)
+					continue
+				}
+				eq, cerr := vrt.CanonEqual(msg, ref)
+				if cerr != nil || !eq {
+					res.Violate("sa-keys-wrong/"+sig, fmt.Sprintf("%s path %s key set %s: containers after translation %v, reference %v (before: %v) err=%v", j.root, j.path, sn, vrt.SAKeys(msg), vrt.SAKeys(ref), vrt.SAKeys(before), cerr), replay)
+					continue
+				}
+				if matched != refMatched {
+					res.Violate("sa-changed-flag/"+sig, fmt.Sprintf("%s path %s key set %s: matched=%v reference %v", j.root, j.path, sn, matched, refMatched), replay)
+				}
 			}
 		}
 	})
